@@ -184,6 +184,12 @@ pub fn run(a: &Args) {
         if handed != sent || replies != sent || others != 0 { st.fail(format!("[C19 websocket] read() dropped by a {us} us timeout again and again: {sent} keep-alives sent (among packets that are not keep-alives), {handed} handed to the caller, the peer received {replies} reply messages and {others} other messages"), format!("wskac {} {n} {us}", mode_tag(compressed))); }
         st.notes.push(format!("websocket keep-alive burst with dropped reads ({} mode, {us} us): {sent} sent, {handed} handed over, {replies} replies seen by the peer", mode_tag(compressed)));
       } }
+    // ... and against a lock-step WebSocket peer (nothing more is sent until every reply has arrived) with read() dropped by a 400 us timeout
+    { let iort = tokio::runtime::Builder::new_multi_thread().worker_threads(2).enable_all().build().unwrap();
+      for compressed in [true, false] { let rounds = if a.thorough() { 1500 } else { 300 };
+        let (sent, handed, replies, done) = crate::c20::ws_lockstep_case(&iort, compressed, rounds, Some(400)); st.evaluations += sent as u64;
+        if done != rounds || handed != sent || replies != sent { st.fail(format!("[C19 websocket] lock-step peer, read() dropped by a 400 us timeout again and again: round {done} of {rounds} never completed: {sent} keep-alives sent, {handed} handed to the caller, {replies} replies received"), format!("wslockc {} {rounds}", mode_tag(compressed))); }
+        st.bump("lock-step websocket sessions with dropped reads"); } }
     // ... and over real UDP sockets (tokio adaptor), long sessions of large datagrams with keep-alives, every read() under a 300 us timeout
     crate::c08::keepalive_sessions_with("C19", a, &mut st, Some(300));
     crate::net::report_unconsumed("C19", &mut st);
